@@ -2,35 +2,21 @@
 
     [Model/Track.v] is the executable trace predicate the checks run on every trace of the real server:
     [track_failures cfg h] lists the observations of the history [h] that contradict the property texts.
-    This file proves that Mseq itself produces no such observation on any of its runs — up to two clauses
-    of the oracle that are too strict (they raise false alarms on traces the model, and hence a correct
-    server, can produce):
-
-    - "C03:not-fifo" when one event completes two parked calls with a grant at the same instant
-      ([sort_completions] reverses the order of same-instant completions, so the second grant of a lock
-      is checked before the first);
-    - "C01:grant-over-capacity" for a grant handed off by an admin Unlock *by name* ([EIpcUnlock n None]):
-      the oracle reads the completions before it has removed the released hold from its list.
-
-    [mseq_oracle_excused] is the full-strength statement: every failure the oracle reports on a run of the
-    model is one of these two, at an event where the excuse applies. [mseq_satisfies_oracle] and
-    [mseq_satisfies_oracle_without] are its two corollaries in the shape of DESIGN 2. *)
+    This file proves that Mseq itself produces no such observation on any of its runs:
+    [mseq_satisfies_oracle : track_failures cfg (zip h os) = []] for every well-formed history [h] and every
+    run [(s, os)] of the model over it. (An earlier version of the oracle raised two false alarms, found by this
+    proof attempt and corrected in Track.v: same-instant grants were checked in reverse order, and a grant handed
+    off by an admin unlock by name was counted against the hold being released; the two histories are kept as
+    positive examples in TrackPEx.v.) The statement covers the clause "C13:collected-before-min-idle": what the
+    oracle remembers about lock objects ([t_mem]) is sound for the model state ([MI], TrackPMem.v). *)
 From Coq Require Import Lia ZifyBool ZifyNat String.
 From Ldlm Require Import Model.Base Model.Err Model.Seq Model.Track Proofs.SeqDefs Proofs.SeqLemmasKey Proofs.SeqInvBase
   Proofs.SeqInvOps Proofs.SeqInvTime Proofs.SeqInv Proofs.SeqTimeBase Proofs.SeqTime1
-  Proofs.TrackPBase Proofs.TrackPOrder Proofs.TrackPRel Proofs.TrackPStep Proofs.TrackPTR Proofs.TrackPProbe Proofs.TrackPAcq
-  Proofs.TrackPUnl Proofs.TrackPRenew Proofs.TrackPSess Proofs.TrackPAdv Proofs.TrackPRst Proofs.TrackPIpc.
+  Proofs.TrackPBase Proofs.TrackPOrder Proofs.TrackPRel Proofs.TrackPStep Proofs.TrackPTR Proofs.TrackPMem Proofs.TrackPProbe Proofs.TrackPAcq
+  Proofs.TrackPUnl Proofs.TrackPRenew Proofs.TrackPSess Proofs.TrackPAdv Proofs.TrackPRst Proofs.TrackPIpc Proofs.TrackPMemEv.
 From RecordUpdate Require Import RecordSet.
 Import RecordSetNotations.
 Local Open Scope Z_scope.
-
-(** ** The two excuses *)
-
-Definition has_grant (o : list out) : Prop := ∃ c, c ∈ comps o ∧ is_grant (c_resp c) = true.
-
-Definition excused (ev : event) (o : list out) (tag : string) : Prop :=
-  (tag = "C03:not-fifo"%string ∧ multi_grant (comps o)) ∨
-  (tag = "C01:grant-over-capacity"%string ∧ (∃ n, ev = EIpcUnlock n None) ∧ has_grant o).
 
 (** ** Well-formed histories *)
 
@@ -51,16 +37,20 @@ Fixpoint hist_ok (cfg : config) (s : sstate) (h : list event) : Prop :=
 
 (** ** One step *)
 
+Lemma TR_set_mem X cfg s t m : TR X cfg s t → TR X cfg s (t <| t_mem := m |>).
+Proof. intros [H1 H2 H3 H4 H5]. by split. Qed.
+Lemma TRP_set_mem X cfg s t m : TRP X cfg s t → TRP X cfg s (t <| t_mem := m |>).
+Proof. intros (n & hk & tm & H). exists n, hk, tm. exact H. Qed.
+
 Section step.
   Context (X : nat → string → Prop) (cfg : config).
 
-  Lemma track_step_ok s t ev s' o i :
-    cfg_ok cfg → Inv cfg s → ev_ok s ev → hist_ok_ev s ev → TR X cfg s t → (s', o) ∈ sstep cfg s ev →
-    (∀ tag, excused ev o tag → X i tag) →
-    TR X cfg s' (track_step cfg i ev o t) ∨ ((∃ n, ev = EIpcUnlock n None) ∧ TRP X cfg s' (track_step cfg i ev o t)).
+  (** the checks *)
+  Lemma track_step0_ok s t ev s' o i :
+    cfg_ok cfg → Inv cfg s → ev_ok s ev → hist_ok_ev s ev → TR X cfg s t → MI cfg s (t_mem t) → (s', o) ∈ sstep cfg s ev →
+    TR X cfg s' (track_step0 cfg i ev o t) ∨ ((∃ n, ev = EIpcUnlock n None) ∧ TRP X cfg s' (track_step0 cfg i ev o t)).
   Proof.
-    intros Hcfg HI Hok Hh HT Hin HX.
-    assert (multi_grant (comps o) → X i "C03:not-fifo"%string) as HM by (intros; apply HX; by left).
+    intros Hcfg HI Hok Hh HT HM Hin.
     destruct ev; simpl in Hin, Hok.
     - (* EConnect *) apply det_elem' in Hin. injection Hin as -> ->. left. by apply track_connect_ok.
     - (* EDisconnect *) apply det_elem' in Hin. left. eapply track_disconnect_ok; try done. by eapply hist_ok_ev_noshut.
@@ -80,13 +70,54 @@ Section step.
       destruct key as [k|].
       + left. unfold ipc_unlock in Hin. case_bool_decide; [by apply elem_of_nil in Hin|].
         apply elem_of_list_singleton in Hin. eapply track_ipc_key_ok; try done.
-      + destruct (track_ipc_name_ok X cfg i name s s' o t) as [?|?]; try done; [by destruct Hh| |by left|right; eauto].
-        intros Hg. apply HX. right. split; [done|]. split; [eauto|done].
+      + destruct (track_ipc_name_ok X cfg i name s s' o t) as [?|?]; try done; [by destruct Hh|by left|right; eauto].
+  Qed.
+
+  (** the memory (C13) *)
+  Lemma mem_step_ok s t ev s' o (i : nat) :
+    cfg_ok cfg → Inv cfg s → hist_ok_ev s ev → TR X cfg s t → MI cfg s (t_mem t) → (s', o) ∈ sstep cfg s ev →
+    MI cfg s' (mem_step cfg ev o t).
+  Proof.
+    intros Hcfg HI Hh HT HM Hin.
+    destruct ev; simpl in Hin.
+    - apply det_elem' in Hin. injection Hin as -> ->. simpl. eapply MI_LEt; [done|]. apply LEt_same; by destruct (st_sessions s !! sid).
+    - apply det_elem' in Hin. eapply mem_disconnect_ok; try done. by eapply hist_ok_ev_noshut.
+    - apply det_elem' in Hin. by eapply mem_trylock_ok.
+    - apply det_elem' in Hin. by eapply mem_lock_ok.
+    - destruct (srv_unlock cfg name key s) as [[s1 [u e]] o1] eqn:Hu. apply det_elem' in Hin. injection Hin as -> ->. by eapply mem_unlock_ok.
+    - apply det_elem' in Hin. simpl. eapply MI_LEt; [done|]. unfold srv_renew in Hin.
+      destruct (lt <=? 0); [injection Hin as -> _; apply LEt_refl|]. destruct (st_timers s !! _); injection Hin as -> _; [by apply LEt_same|apply LEt_refl].
+    - apply det_elem' in Hin. simpl. eapply MI_LEt; [done|].
+      destruct (cancel_waiters_spec (λ w, bool_decide (w_id w = wid)) ECtxCanceled s) as (ws' & Ec & _). rewrite Ec in Hin.
+      injection Hin as -> _. by apply LEt_same.
+    - eapply (mem_advance_ok X cfg i); try done. by eapply hist_ok_ev_noshut.
+    - simpl. apply MI_nil.
+    - apply det_elem' in Hin. simpl. eapply MI_LEt; [done|]. unfold shutdown in Hin.
+      destruct (cancel_waiters_spec (λ _, true) ECtxCanceled (s <| st_shut := true |>)) as (ws' & Ec & _). rewrite Ec in Hin.
+      injection Hin as -> _. by apply LEt_same.
+    - apply det_elem' in Hin. by injection Hin as -> ->.
+    - apply det_elem' in Hin. by injection Hin as -> ->.
+    - by eapply mem_ipc_ok.
+  Qed.
+
+  Lemma track_step_ok s t ev s' o i :
+    cfg_ok cfg → Inv cfg s → ev_ok s ev → hist_ok_ev s ev → TR X cfg s t → MI cfg s (t_mem t) → (s', o) ∈ sstep cfg s ev →
+    (TR X cfg s' (track_step cfg i ev o t) ∨ ((∃ n, ev = EIpcUnlock n None) ∧ TRP X cfg s' (track_step cfg i ev o t))) ∧
+    MI cfg s' (t_mem (track_step cfg i ev o t)).
+  Proof.
+    intros Hcfg HI Hok Hh HT HM Hin. split; [|by eapply (mem_step_ok s t ev s' o i)].
+    unfold track_step. destruct (track_step0_ok s t ev s' o i Hcfg HI Hok Hh HT HM Hin) as [?|[? ?]].
+    - left. by apply TR_set_mem.
+    - right. split; [done|]. by apply TRP_set_mem.
   Qed.
 
   Lemma track_step_pending_ok s t s' o i :
-    Inv cfg s → TRP X cfg s t → (s', o) ∈ sstep cfg s EProbe → TR X cfg s' (track_step cfg i EProbe o t).
-  Proof. intros HI HT Hin. simpl in Hin. apply det_elem' in Hin. injection Hin as -> ->. by apply track_probe_pending_ok. Qed.
+    Inv cfg s → TRP X cfg s t → MI cfg s (t_mem t) → (s', o) ∈ sstep cfg s EProbe →
+    TR X cfg s' (track_step cfg i EProbe o t) ∧ MI cfg s' (t_mem (track_step cfg i EProbe o t)).
+  Proof.
+    intros HI HT HM Hin. simpl in Hin. apply det_elem' in Hin. injection Hin as -> ->. split; [|done].
+    apply TR_set_mem. by apply track_probe_pending_ok.
+  Qed.
 End step.
 
 (** ** Runs *)
@@ -105,26 +136,23 @@ Section runs.
   Context (X : nat → string → Prop) (cfg : config) (Hcfg : cfg_ok cfg).
 
   Definition Rel (s : sstate) (t : tstate) (h : list event) : Prop :=
-    TR X cfg s t ∨ (TRP X cfg s t ∧ match h with [] => True | e :: _ => e = EProbe end).
+    (TR X cfg s t ∨ (TRP X cfg s t ∧ match h with [] => True | e :: _ => e = EProbe end)) ∧ MI cfg s (t_mem t).
 
   Lemma track_runs h : ∀ s t i sf os,
     Inv cfg s → hist_ok cfg s h → Rel s t h → (sf, os) ∈ runs cfg s h →
-    (∀ j ev o, zip h os !! j = Some (ev, o) → ∀ tag, excused ev o tag → X (i + j)%nat tag) →
     fails_ok X (track cfg i (zip h os) t).
   Proof.
-    induction h as [|ev h IH]; intros s t i sf os HI Hh HR Hin HX.
+    induction h as [|ev h IH]; intros s t i sf os HI Hh [HR HM] Hin.
     - simpl. destruct HR as [HT|[(? & ? & ? & _ & _ & _ & _ & _ & _ & _ & ?) _]]; [apply (tr_fail _ _ _ _ HT)|done].
     - apply elem_of_runs_cons in Hin as (s1 & o & os' & Hst & Hr & ->). simpl.
       destruct Hh as (Hok & Hhe & Hnext & Hrest).
       pose proof (inv_step _ _ _ _ _ Hcfg HI Hok Hst) as HI1.
-      apply (IH s1 _ (S i) sf os' HI1 (Hrest _ _ Hst)); [|done|].
-      + destruct HR as [HT|[HT ->]].
-        * destruct (track_step_ok X cfg s t ev s1 o i Hcfg HI Hok Hhe HT Hst) as [?|[[n ->] ?]].
-          -- intros tag Hex. replace i with (i + 0)%nat by lia. by eapply (HX 0%nat).
-          -- by left.
-          -- right. split; [done|]. simpl in Hnext. by destruct h.
-        * left. exact (track_step_pending_ok X cfg s t s1 o i HI HT Hst).
-      + intros j ev' o' Hj tag Hex. replace (S i + j)%nat with (i + S j)%nat by lia. by eapply (HX (S j)).
+      apply (IH s1 _ (S i) sf os' HI1 (Hrest _ _ Hst)); [|done].
+      destruct HR as [HT|[HT ->]].
+      + destruct (track_step_ok X cfg s t ev s1 o i Hcfg HI Hok Hhe HT HM Hst) as [[?|[[n ->] ?]] HM1].
+        * split; [by left|done].
+        * split; [|done]. right. split; [done|]. simpl in Hnext. by destruct h.
+      + destruct (track_step_pending_ok X cfg s t s1 o i HI HT HM Hst) as [? ?]. split; [by left|done].
   Qed.
 End runs.
 
@@ -144,47 +172,16 @@ Proof.
   - by intros ? ? ?%elem_of_nil.
 Qed.
 
-(** ** The theorems *)
-
-(** every failure the oracle reports on a run of the model is one of the two excused false alarms *)
-Theorem mseq_oracle_excused cfg h s os :
-  cfg_ok cfg → hist_ok cfg (init_state cfg) h → (s, os) ∈ runs cfg (init_state cfg) h →
-  ∀ j tag, (j, tag) ∈ track_failures cfg (zip h os) → ∃ ev o, zip h os !! j = Some (ev, o) ∧ excused ev o tag.
-Proof.
-  intros Hcfg Hh Hin j tag Hj. unfold track_failures in Hj. rewrite elem_of_list_In, <- in_rev, <- elem_of_list_In in Hj.
-  set (X := λ (j : nat) (tag : string), ∃ ev o, zip h os !! j = Some (ev, o) ∧ excused ev o tag).
-  eapply (track_runs X cfg Hcfg h (init_state cfg) t_init 0%nat s os); [by apply inv_init|done|left; apply TR_init|done| |exact Hj].
-  intros j' ev o Hj' tag' Hex. exists ev, o. done.
-Qed.
-
-(** histories on which neither excuse can apply *)
-Definition no_excuse (tr : list (event * list out)) : Prop :=
-  ∀ ev o, (ev, o) ∈ tr → ¬ multi_grant (comps o) ∧ ((∃ n, ev = EIpcUnlock n None) → ¬ has_grant o).
+(** ** The theorem *)
 
 Theorem mseq_satisfies_oracle cfg h s os :
   cfg_ok cfg → hist_ok cfg (init_state cfg) h → (s, os) ∈ runs cfg (init_state cfg) h →
-  no_excuse (zip h os) → track_failures cfg (zip h os) = [].
+  track_failures cfg (zip h os) = [].
 Proof.
-  intros Hcfg Hh Hin Hne. destruct (track_failures cfg (zip h os)) as [|[j tag] r] eqn:E; [done|]. exfalso.
-  destruct (mseq_oracle_excused cfg h s os Hcfg Hh Hin j tag) as (ev & o & Hl & Hex); [rewrite E; left|].
-  apply elem_of_list_lookup_2 in Hl. destruct (Hne _ _ Hl) as [H1 H2].
-  destruct Hex as [[_ ?]|(_ & ? & ?)]; [done|by apply H2].
+  intros Hcfg Hh Hin. unfold track_failures.
+  pose proof (track_runs (λ _ _, False) cfg Hcfg h (init_state cfg) t_init 0%nat s os (inv_init _ Hcfg) Hh) as H.
+  destruct (t_fail (track cfg 0 (zip h os) t_init)) as [|[j tag] r] eqn:E; [done|]. exfalso.
+  apply (H ltac:(split; [left; apply TR_init|apply MI_nil]) Hin j tag). rewrite E. left.
 Qed.
 
-(** the oracle restricted to the remaining tags *)
-Definition track_failures_without (tags : list string) (cfg : config) (tr : list (event * list out)) : list (nat * string) :=
-  List.filter (λ x, negb (existsb (String.eqb (snd x)) tags)) (track_failures cfg tr).
-
-Definition excluded_tags : list string := ["C03:not-fifo"%string; "C01:grant-over-capacity"%string].
-
-Theorem mseq_satisfies_oracle_without cfg h s os :
-  cfg_ok cfg → hist_ok cfg (init_state cfg) h → (s, os) ∈ runs cfg (init_state cfg) h →
-  track_failures_without excluded_tags cfg (zip h os) = [].
-Proof.
-  intros Hcfg Hh Hin. unfold track_failures_without. apply lfilter_none. intros [j tag] Hj.
-  destruct (mseq_oracle_excused cfg h s os Hcfg Hh Hin j tag Hj) as (ev & o & _ & [[-> _]|(-> & _)]); done.
-Qed.
-
-Print Assumptions mseq_oracle_excused.
 Print Assumptions mseq_satisfies_oracle.
-Print Assumptions mseq_satisfies_oracle_without.
